@@ -35,6 +35,118 @@ def outrec(v, kind):
     return {"k": "unknown", "v": []}
 
 
+def rx_render(r):
+    """pattern AST (Regex.tla) -> regex syntax; every composite is parenthesised (non-capturing)"""
+    k = r["k"]
+    if k == "lit":
+        return chr(r["c"])
+    if k == "any":
+        return "."
+    if k == "cls":
+        return "[" + ("^" if r["neg"] else "") + "".join(chr(c) for c in sorted(r["set"])) + "]"
+    if k == "bol":
+        return "^"
+    if k == "eol":
+        return "$"
+    if k == "cat":
+        return "(?:" + rx_render(r["a"]) + ")(?:" + rx_render(r["b"]) + ")"
+    if k == "alt":
+        return "(?:" + rx_render(r["a"]) + "|" + rx_render(r["b"]) + ")"
+    return "(?:" + rx_render(r["a"]) + ")" + {"star": "*", "plus": "+", "opt": "?"}[k]
+
+
+RX_FNS = [("like", "regexp_like({s}, {p})"), ("instr", "regexp_instr({s}, {p})"), ("count", "regexp_count({s}, {p})"),
+          ("replace", "regexp_replace({s}, {p}, 'xy')")]
+
+
+def regex_part(rep, tier, rng):
+    """regular-expression functions: TLC-generated pattern ASTs x short strings, pattern as a constant and from a column"""
+    depth, k = (2, 60) if tier == "quick" else (2, 6)
+    g = vlib.tlc("GenRegex", f"INIT Init\nNEXT Next\nINVARIANT Emit\nCHECK_DEADLOCK FALSE\nCONSTANTS Depth = {depth}\n SampleK = {k}\n",
+                 "C20-genrx", workers=4, timeout=900)
+    if g.error:
+        raise vlib.ToolError(f"GenRegex: {g.error}")
+    rep.add_tlc(g, f"GEN regex ASTs depth <= {depth} (1/{k} sample)")
+    g1 = vlib.tlc("GenRegex", "INIT Init\nNEXT Next\nINVARIANT Emit\nCHECK_DEADLOCK FALSE\nCONSTANTS Depth = 1\n SampleK = 1\n",
+                  "C20-genrx1", workers=4, timeout=900)
+    rep.add_tlc(g1, "GEN regex ASTs depth <= 1 (all)")
+    pats = [p for p in g1.printed + g.printed if isinstance(p, dict) and "k" in p]
+    seen, uniq = set(), []
+    for p in pats:
+        key = json.dumps(p, sort_keys=True)
+        if key not in seen:
+            seen.add(key)
+            uniq.append(p)
+    strs = strings(["a", "b", "é", "\n"], 3)
+    strs += ["xxxxxxxxxxxx" + s for s in strs[:10]] + ["é" * 7 + "ab"]
+    cases = []
+    for i in range(0, len(uniq), 12):
+        chunk = uniq[i:i + 12]
+        steps = [{"sql": "CREATE TEMP TABLE strs (s TEXT)"},
+                 {"sql": "INSERT INTO strs VALUES " + ", ".join(f"({sq(s)})" for s in rng.sample(strs, 24))}]
+        n0 = len(steps)
+        plan = []
+        for p in chunk:
+            rx = rx_render(p)
+            for f, tmpl in RX_FNS:
+                steps.append({"sql": "SELECT s, " + tmpl.format(s="s", p=sq(rx)) + " FROM strs"})
+                plan.append((p, f, "constant"))
+                steps.append({"sql": "SELECT s, " + tmpl.format(s="s", p="p") + f" FROM strs CROSS JOIN (VALUES ({sq(rx)})) v(p)"})
+                plan.append((p, f, "column"))
+        cases.append({"id": len(cases), "rt": {"kind": "threaded", "threads": 2}, "steps": steps, "timeout": 120, "_plan": plan, "_n0": n0})
+    send = [{k: v for k, v in c.items() if not k.startswith("_")} for c in cases]
+    res = vlib.Driver(nworkers=14, case_timeout=120).run(send)
+    lines, meta = [], {}
+    for c, r in zip(cases, res):
+        if r is None or "steps" not in r:
+            singles = [{"id": j, "rt": c["rt"], "steps": c["steps"][:c["_n0"]] + [st], "timeout": 20} for j, st in enumerate(c["steps"][c["_n0"]:])]
+            rr = vlib.Driver(nworkers=14, case_timeout=20).run(singles)
+            steps = [x["steps"][-1] if x and "steps" in x else
+                     [{"outcome": "abort" if (x or {}).get("abort") else "timeout", "msg": " || ".join(q for q in (x or {}).get("panic", []) if q)}] for x in rr]
+        else:
+            steps = r["steps"][c["_n0"]:]
+        for (p, f, ctx), st in zip(c["_plan"], steps):
+            o = st[-1]
+            if o.get("outcome") == "rows":
+                for row in o["rows"]:
+                    lid = len(lines)
+                    lines.append({"id": lid, "f": f, "r": p, "s": cps(row[0]), "rep": cps("xy"), "out": outrec(row[1], "fn")})
+                    meta[lid] = {"fn": "regexp_" + f, "ctx": ctx, "pattern": rx_render(p), "s": row[0]}
+            else:
+                lid = len(lines)
+                lines.append({"id": lid, "f": f, "r": p, "s": [], "rep": cps("xy"),
+                              "out": {"k": "err" if o.get("outcome") == "error" else o.get("outcome"), "v": []}})
+                meta[lid] = {"fn": "regexp_" + f, "ctx": ctx, "pattern": rx_render(p), "s": None, "msg": (o.get("msg") or "")[:200]}
+    wd = vlib.workdir("C20-rx")
+    chunks = [lines[i:i + 20000] for i in range(0, len(lines), 20000)]
+    mism = []
+
+    def one(ci):
+        path = os.path.join(wd, f"trace{ci}.ndjson")
+        vlib.write_ndjson(path, chunks[ci])
+        return ci, vlib.tlc("TraceRegex", "SPECIFICATION TSpec\nPOSTCONDITION Accepted\nCHECK_DEADLOCK FALSE\n", f"C20-rx{ci}",
+                            env={"TRACE": path}, workers=1, timeout=1700, deque=True, heap="3g")
+    with concurrent.futures.ThreadPoolExecutor(max_workers=6) as ex:
+        for ci, r in ex.map(one, range(len(chunks))):
+            if r.error or not r.ok:
+                rep.tool_error(f"TraceRegex chunk {ci}: {r.error or r.violated}: {r.out[-800:]}")
+                continue
+            rep.add_tlc(r, f"TV regex#{ci}", trace_lines=len(chunks[ci]))
+            mism += [p for p in r.printed if isinstance(p, dict) and "mismatch" in p]
+    for m in mism:
+        i = meta[m["mismatch"]]
+        ln = lines[m["mismatch"]]
+        s = i["s"] or ""
+        sig = {"family": "regex", "fn": i["fn"], "ctx": i["ctx"], "observed": ln["out"]["k"], "multibyte_in_s": any(ord(ch) > 127 for ch in s),
+               "msg": vlib.re.sub(r"\d+", "#", i.get("msg", ""))[:120]}
+        rep.mismatch(sig, dict(i, expected=m.get("exp"), observed=ln["out"]))
+    rep.cov["regex_rule"] = (f"regexp_like / regexp_instr / regexp_count / regexp_replace: every pattern AST of depth <= 1 and a 1/{k} sample of "
+                             "depth 2 from GenRegex.tla (literals, '.', classes, anchors, * + ?, concatenation, alternation) x 24 sampled strings "
+                             "of length <= 3 over {a, b, e-acute, newline} plus out-of-line variants, pattern as a constant and from a column; "
+                             "judged by Regex.tla (leftmost-first backtracking order)")
+    return len(lines)
+
+
 def run(tier):
     rep = vlib.Report("C20", tier)
     rng = random.Random(vlib.seed())
@@ -148,7 +260,7 @@ def run(tier):
                         out = {"k": "err" if o.get("outcome") == "error" else o.get("outcome"), "v": []}
                     lines.append({"id": lid, "kind": "fn", "s": cps(s), "p": cps(t), "f": f, "n": n, "m": m, "out": out})
                     meta[lid] = {"fn": f, "sql": sql, "ctx": ctx, "msg": o.get("msg", "")[:200]}
-    rep.cov["evaluations"] = len(lines)
+    rep.cov["evaluations"] = len(lines) + regex_part(rep, tier, rng)
     wd = vlib.workdir("C20-tv")
     chunks = [lines[i:i + 15000] for i in range(0, len(lines), 15000)]
     mism = []
@@ -187,7 +299,8 @@ def run(tier):
                        "and over a table column; judged by Text.tla definitions on code-point sequences; a result that is not valid "
                        "UTF-8 is an inadmissible outcome; non-trivial = a non-empty / true result")
     rep.cov["exhaustive"] = tier == "thorough"
-    rep.assumptions += ["negative / zero length arguments and regular expressions are exercised for crash-freedom in C15 only"]
+    rep.assumptions += ["regular-expression syntax beyond literals, '.', classes, anchors, * + ?, concatenation and alternation (counted repetition, "
+                        "lazy quantifiers, capture-group references in replacements, flags) is not specified in Regex.tla"]
     return rep.finish()
 
 
